@@ -34,6 +34,10 @@ structure SysFacts where
   /-- `Broker::publish/subscribe`, `Addr<Broker>::publish/subscribe/unsubscribe` and `Context::publish/subscribe`
       are plain sends of `Publish` / `Subscribe` / `Unsubscribe` to the registry's broker instance -/
   brokerOpsAreSendsThroughTheRegistry : Bool
+  /-- `create_loop` reads the handler timeout from the configuration unchanged and races it against the payload
+      future of a task and against nothing else (not `started`, not `stopped`, not stream items); on a timeout it
+      continues or returns the error as `fail_on_timeout` says (`AState.deadlineAt`, `stepCbAbandon`) -/
+  timeoutGuardsTaskPayloadsOnly : Bool
   deriving DecidableEq, Repr, Inhabited
 
 /-- what `Model/Registry.lean` rests on -/
@@ -49,5 +53,8 @@ def SysFacts.ok09 (f : SysFacts) : Bool :=
 /-- what `Model/Sys.lean` rests on -/
 def SysFacts.ok16 (f : SysFacts) : Bool :=
   f.childrenAreStrongSendersInContext && f.childrenDroppedOnlyWithContext && f.broadcastToEveryRegisteredChild
+
+/-- what the loop model's treatment of the handler timeout rests on -/
+def SysFacts.ok11 (f : SysFacts) : Bool := f.timeoutGuardsTaskPayloadsOnly
 
 end Hannibal
